@@ -60,6 +60,19 @@ def gen_case(rng):
     return b
 
 
+def gen_deep_chain(rng, depth):
+    """a recurrence h_k = w * h_(k-1) whose shared factor w is itself a NON-LEAF tensor consumed at every depth:
+    the topological order must place w after all of its consumers, however deep the graph is"""
+    b = progs.Builder(rng)
+    w_raw = b.leaf((2,), [rng.choice([1, -1]), rng.choice([1, -1])])
+    h = b.leaf((2,), [rng.randint(1, 3), rng.randint(-3, -1)])
+    w = b.apply("multiply", [w_raw, ("array", (2,), [1, 1])])
+    for k in range(depth):
+        h = b.apply("multiply", [h, w] if k % 2 else [w, h])
+    b.backward(h)
+    return b
+
+
 def features(b):
     """what the program exercises (for the distinct_nontrivial rule and the distribution)"""
     uses = {}
@@ -84,6 +97,9 @@ def run(rep, work, tier, seed, props, replay=None):
     if replay is not None:
         builders = [progs.builder_from_stmts(replay["stmts"])]
         n = 1
+    if replay is None:
+        for depth in ((405, 430, 470) if tier == "quick" else (401, 405, 420, 450, 470, 490)):
+            builders.append(gen_deep_chain(rng, depth))
     while len(builders) < n:
         b = gen_case(rng)
         if b is not None:
@@ -124,7 +140,8 @@ def run(rep, work, tier, seed, props, replay=None):
     rep.coverage.update({
         "evaluations": len(kb),
         "distinct_nontrivial": len(nt),
-        "rule": "random DAG programs over the exact op registry (1-4 leaves incl. constants/int/float32, 2-14 ops, shapes <= 3-d, broadcasting, repeated operands, raw arrays and scalars, "
+        "deep_chain_programs": sum(1 for b in kb if len(b.stmts) > 300),
+        "rule": "(plus recurrences of depth 400-490 with a shared non-leaf factor) random DAG programs over the exact op registry (1-4 leaves incl. constants/int/float32, 2-14 ops, shapes <= 3-d, broadcasting, repeated operands, raw arrays and scalars, "
                 "constant= overrides, several spellings), one backward() on a non-constant tensor; non-trivial = some tensor is used >= 2 times AND some operand is broadcast/duplicated "
                 "(so gradients are accumulated and reduced); distinct = distinct statement list",
         "samples": [kb[0].stmts, kb[len(kb) // 2].stmts] if kb else [],
